@@ -811,3 +811,273 @@ def h_gfaffine(ex, st, insn, ops):
         for j in range(8):
             out.append(affine_byte(mb, x[8 * q + j], imm))
     vdst(ex, st, ops[0], insn, out, 1)
+
+
+# ---------------------------------------------------------------- igzip encode kernels: variable shifts, gathers, blends
+
+def _var_shift(elem, left):
+    def h(ex, st, insn, ops):
+        n = vw(ops)
+        a = vsrc(ex, st, ops[1], insn, n)
+        c = vsrc(ex, st, ops[2], insn, n)
+        out = []
+        for la, lc in zip(lanes(a, elem), lanes(c, elem)):
+            cnt = bv.join_bytes(lc)
+            if bv.is_c(cnt):
+                if cnt >= elem * 8:
+                    out.extend([0] * elem)
+                else:
+                    out.extend(shl_bytes(la, cnt) if left else shr_bytes(la, cnt, 0))
+            else:
+                v = bv.z(elem * 8, bv.join_bytes(la))
+                cz = bv.z(elem * 8, cnt)
+                r = z3.If(z3.UGE(cz, elem * 8), z3.BitVecVal(0, elem * 8), (v << cz) if left else z3.LShR(v, cz))
+                out.extend(bv.split_bytes(elem * 8, r))
+        vdst(ex, st, ops[0], insn, out, elem)
+    return h
+
+
+HANDLERS["vpsllvq"] = _var_shift(8, True)
+HANDLERS["vpsrlvq"] = _var_shift(8, False)
+HANDLERS["vpsllvd"] = _var_shift(4, True)
+HANDLERS["vpsrlvd"] = _var_shift(4, False)
+
+
+@handler("vpgatherdd")
+def h_vpgatherdd(ex, st, insn, ops):
+    """VEX form: vpgatherdd dst, [base + idx*scale + disp], mask ; EVEX form: dst{k}, [..]"""
+    import re as _re
+    d = ops[0]
+    n = d.width // 8
+    text = insn.ops[1]
+    m = _re.search(r"\[(.*)\]", text)
+    base, idxreg, scale, disp = 0, None, 1, 0
+    for t in m.group(1).replace("-", "+-").split("+"):
+        t = t.strip()
+        if not t:
+            continue
+        if "*" in t:
+            r, sc = t.split("*")
+            idxreg, scale = r.strip(), int(sc, 0)
+        elif _re.match(r"^[xyz]mm\d+$", t):
+            idxreg = t
+        elif t in ("rax", "rcx", "rdx", "rbx", "rsp", "rbp", "rsi", "rdi") or _re.match(r"^r\d+$", t):
+            b = st.r[t]
+            if not bv.is_c(b):
+                raise Unsupported("symbolic gather base")
+            base += b
+        else:
+            disp += int(t.replace(" ", ""), 0)
+    idx = st.v[int(idxreg[3:])]
+    old = st.v[d.vidx][:n]
+    out = []
+    if d.kmask:
+        act = kbits(st, d.kmask, n // 4)
+    else:
+        mreg = st.v[ops[2].vidx][:n]
+        act = [bv.bit(mreg[4 * i + 3], 7) for i in range(n // 4)]
+    for i in range(n // 4):
+        a = act[i]
+        if not bv.b_is_c(a):
+            raise Unsupported("gather with symbolic mask")
+        if not a:
+            out.extend(old[4 * i:4 * i + 4])
+            continue
+        iv = bv.join_bytes(idx[4 * i:4 * i + 4])
+        if not bv.is_c(iv):
+            raise Unsupported("gather with symbolic index in %r" % (insn,))
+        if iv & 0x80000000:
+            iv -= 1 << 32
+        addr = (base + disp + iv * scale) & bv.mask(64)
+        out.extend(st.mem.load(addr, 4, insn))
+    st.v[d.vidx] = out + [0] * (64 - n)
+    if d.kmask:
+        st.k[d.kmask] = 0
+    else:
+        st.v[ops[2].vidx] = [0] * 64
+
+
+@handler("vpermq", "vpermpd")
+def h_vpermq(ex, st, insn, ops):
+    n = vw(ops)
+    if ops[2].kind != "i":
+        raise Unsupported("vpermq with vector control")
+    a = vsrc(ex, st, ops[1], insn, n)
+    imm = ops[2].imm
+    out = []
+    for blk in range(0, n, 32):
+        for i in range(4):
+            s_ = (imm >> (2 * i)) & 3
+            out.extend(a[blk + 8 * s_:blk + 8 * s_ + 8])
+    vdst(ex, st, ops[0], insn, out, 8)
+
+
+def _cmp_lane(elem, kind):
+    def h(ex, st, insn, ops):
+        n = vw(ops)
+        a, b = src12(ex, st, insn, ops, n)
+        out = []
+        for la, lb in zip(lanes(a, elem), lanes(b, elem)):
+            x, y = bv.join_bytes(la), bv.join_bytes(lb)
+            w = elem * 8
+            if kind == "eq":
+                c = bv.eq(w, x, y)
+            else:
+                if bv.is_c(x) and bv.is_c(y):
+                    sx = x - (1 << w) if x >> (w - 1) else x
+                    sy = y - (1 << w) if y >> (w - 1) else y
+                    c = sx > sy
+                else:
+                    c = bv.z(w, x) > bv.z(w, y)
+            if bv.b_is_c(c):
+                out.extend([0xFF if c else 0] * elem)
+            else:
+                out.extend([z3.If(c, z3.BitVecVal(0xFF, 8), z3.BitVecVal(0, 8))] * elem)
+        vdst(ex, st, ops[0], insn, out, elem)
+    return h
+
+
+for _m, _e, _k in (("pcmpeqq", 8, "eq"), ("pcmpeqd", 4, "eq"), ("pcmpeqw", 2, "eq"), ("pcmpgtd", 4, "gt"), ("pcmpgtq", 8, "gt"), ("pcmpgtw", 2, "gt")):
+    HANDLERS[_m] = _cmp_lane(_e, _k)
+    HANDLERS["v" + _m] = _cmp_lane(_e, _k)
+
+
+@handler("vpblendd", "pblendw", "vpblendw")
+def h_blend_imm(ex, st, insn, ops):
+    n = vw(ops)
+    a, b = src12(ex, st, insn, ops[:-1], n)
+    imm = ops[-1].imm
+    e = 4 if insn.mnem == "vpblendd" else 2
+    out = []
+    for i in range(n // e):
+        bit = (imm >> (i % 8)) & 1 if e == 2 else (imm >> i) & 1
+        out.extend((b if bit else a)[i * e:i * e + e])
+    vdst(ex, st, ops[0], insn, out, e)
+
+
+def _kbin(fn):
+    def h(ex, st, insn, ops):
+        w = {"q": 64, "d": 32, "w": 16, "b": 8}[insn.mnem[-1]]
+        a = bv.extract(st.k[ops[1].vidx], w - 1, 0)
+        b = bv.extract(st.k[ops[2].vidx], w - 1, 0)
+        st.k[ops[0].vidx] = bv.zext(w, 64, fn(w, a, b))
+    return h
+
+
+for _sfx in "qdwb":
+    HANDLERS["kand" + _sfx] = _kbin(bv.and_)
+    HANDLERS["kor" + _sfx] = _kbin(bv.or_)
+    HANDLERS["kxor" + _sfx] = _kbin(bv.xor)
+    HANDLERS["kandn" + _sfx] = _kbin(bv.andn)
+    HANDLERS["kxnor" + _sfx] = _kbin(lambda w, a, b: bv.not_(w, bv.xor(w, a, b)))
+
+
+def _vpcmp_k(elem):
+    def h(ex, st, insn, ops):
+        n = vw(ops[1:])
+        a = vsrc(ex, st, ops[1], insn, n)
+        b = vsrc(ex, st, ops[2], insn, n)
+        m = insn.mnem
+        core = m[len("vpcmp"):-1]
+        uns = core.endswith("u")
+        core = core.rstrip("u")
+        pred = {"eq": 0, "lt": 1, "le": 2, "neq": 4, "nlt": 5, "nle": 6, "gt": 6, "": None}[core]
+        if pred is None:
+            pred = ops[3].imm & 7
+        w = elem * 8
+        bits = []
+        for la, lb in zip(lanes(a, elem), lanes(b, elem)):
+            x, y = bv.join_bytes(la), bv.join_bytes(lb)
+            if bv.is_c(x) and bv.is_c(y):
+                if not uns:
+                    x = x - (1 << w) if x >> (w - 1) else x
+                    y = y - (1 << w) if y >> (w - 1) else y
+                lt, e = x < y, x == y
+            else:
+                lt = z3.ULT(bv.z(w, x), bv.z(w, y)) if uns else (bv.z(w, x) < bv.z(w, y))
+                e = bv.z(w, x) == bv.z(w, y)
+            bits.append({0: e, 1: lt, 2: bv.b_or(lt, e), 4: bv.b_not(e), 5: bv.b_not(lt), 6: bv.b_not(bv.b_or(lt, e))}[pred])
+        set_k_from_bools(st, ops[0], bits)
+    return h
+
+
+_old_cmp = {}
+for _m in ("vpcmpgtd", "vpcmpgtq", "vpcmpeqd", "vpcmpeqq", "vpcmpgtw", "vpcmpeqw"):
+    _old_cmp[_m] = HANDLERS[_m]          # VEX forms writing a vector register
+
+for _e, _s in ((8, "q"), (4, "d"), (2, "w")):
+    for _p in ("eq", "lt", "le", "neq", "nlt", "nle", "gt", ""):
+        for _u in ("", "u"):
+            _n = "vpcmp%s%s%s" % (_p, _u, _s)
+            if _n in _old_cmp:
+                continue
+            HANDLERS[_n] = _vpcmp_k(_e)
+
+for _m in list(_old_cmp):
+    def _mk(m=_m):
+        def h(ex, st, insn, ops):
+            if ops[0].kind == "k":
+                return _vpcmp_k({"d": 4, "q": 8, "w": 2}[m[-1]])(ex, st, insn, ops)
+            return _old_cmp[m](ex, st, insn, ops)
+        return h
+    HANDLERS[_m] = _mk()
+
+
+_vpermq_imm = HANDLERS["vpermq"]
+
+
+@handler("vpermq", "vpermpd")
+def h_vpermq2(ex, st, insn, ops):
+    if ops[2].kind == "i":
+        return _vpermq_imm(ex, st, insn, ops)
+    n = vw(ops)
+    ctl = vsrc(ex, st, ops[1], insn, n)
+    src = vsrc(ex, st, ops[2], insn, n)
+    out = []
+    for i in range(n // 8):
+        c = ctl[8 * i]
+        if not bv.is_c(c):
+            raise Unsupported("vpermq with symbolic control")
+        s_ = c & (n // 8 - 1)
+        out.extend(src[8 * s_:8 * s_ + 8])
+    vdst(ex, st, ops[0], insn, out, 8)
+
+
+@handler("vpscatterqq")
+def h_vpscatterqq(ex, st, insn, ops):
+    import re as _re
+    text = insn.ops[0]
+    m = _re.search(r"\[(.*)\]", text)
+    base, idxreg, scale, disp = 0, None, 1, 0
+    for t in m.group(1).replace("-", "+-").split("+"):
+        t = t.strip()
+        if not t:
+            continue
+        if "*" in t:
+            r, sc = t.split("*")
+            idxreg, scale = r.strip(), int(sc, 0)
+        elif _re.match(r"^[xyz]mm\d+$", t):
+            idxreg = t
+        elif t in st.r:
+            if not bv.is_c(st.r[t]):
+                raise Unsupported("symbolic scatter base")
+            base += st.r[t]
+        else:
+            disp += int(t.replace(" ", ""), 0)
+    kreg = ops[0].kmask
+    src = st.v[ops[1].vidx]
+    n = ops[1].width // 8
+    idx = st.v[int(idxreg[3:])]
+    act = kbits(st, kreg, n // 8)
+    for i in range(n // 8):
+        a = act[i]
+        if not bv.b_is_c(a):
+            raise Unsupported("scatter with symbolic mask")
+        if not a:
+            continue
+        iv = bv.join_bytes(idx[8 * i:8 * i + 8])
+        if not bv.is_c(iv):
+            raise Unsupported("scatter with symbolic index")
+        addr = (base + disp + iv * scale) & bv.mask(64)
+        st.mem.store(addr, src[8 * i:8 * i + 8], insn)
+    st.k[kreg] = 0
